@@ -321,6 +321,11 @@ TEMPLATES = [
 ]
 _TEMPLATES = [(re.compile(p, re.S), k) for p, k in TEMPLATES]
 
+# error kinds of the annotation stage (Field/Alias.set_annotations, _resolve_annotation_type, _validate_annotations)
+ANNOT_STAGE_KINDS = {'annotNotExist', 'annotNotRecognized', 'aliasAnnotUnsupported', 'deprecatedTwice', 'omittedTwice',
+                     'previewTwice', 'redactorTwice', 'deprecatedPreview', 'redactorOnAliasRef', 'redactorAlready',
+                     'redactorOnUser'}
+
 # the model's recursion bounds / impossible states: never a verdict
 NO_VERDICT = ('outOfFuel', 'fuelAlias', 'fuelAncestors', 'fuelImports', 'internal')
 
@@ -619,6 +624,13 @@ def judge_case(ck, files, origin, asts, reply, real=None, flags=()):
         ck.agree('comp.compile')
     elif rk in ambiguous:
         ck.hist('comp.not_judged.ambiguous_message', rk)
+    elif (rk in ANNOT_STAGE_KINDS) != (mk in ANNOT_STAGE_KINDS):
+        # both refuse. The code applies annotations while it creates each member, the model tests them in one stage
+        # after the type passes (the MANIFEST note says so): a spec with an annotation violation AND a type violation
+        # gets a different FIRST message. The verdict (refused) agrees; which of several violations is reported is
+        # not judged.
+        ck.hist('comp.not_judged.two_violations_other_stage_first', '%s/%s' % (rk, mk))
+        ck.agree('comp.compile')
     else:
         ck.disagree('comp.compile', case, rk, mk)
     return st
